@@ -1,18 +1,20 @@
 (* C05 proofs, part 4: the value of floating-point constants (exact model of round-to-nearest-even, Gen/MetaC05Float.v). *)
 From Coq Require Import List NArith ZArith Bool Lia.
-From Verif Require Import Str MetaC05Base Gen_C05 MetaC05 MetaC05Float.
+From Verif Require Import Str MetaC05Base MetaC05Rne Gen_C05 MetaC05 MetaC05LitThm MetaC05Float.
 Import ListNotations.
 Local Open Scope Z_scope.
 
-(* REFUTED (finding F-FLOAT-OPERAND-ROUNDING): "within one ulp of the correctly rounded rational" is false for float64 constants
-   rendered as a division whose operands are not exactly representable: each operand is rounded to double before the division.
-   Witness: 1152921504606847105 / 1152921504606847359 evaluates to 1.0, two ulps above the correctly rounded 0x1.ffffffffffffep-1 *)
-Theorem float64_one_ulp_refuted : exists n d,
+(* Under the rule "division whenever both operands are below 2^1023" (the code before the repair of F-FLOAT-OPERAND-ROUNDING) the
+   claim "within one ulp of the correctly rounded rational" is REFUTED for float64: each inexact operand is rounded to double before
+   the division.  Witness: 1152921504606847105 / 1152921504606847359 evaluates to 1.0, two ulps above 0x1.ffffffffffffep-1 *)
+Theorem float64_one_ulp_refuted : float_rule = DivIfBelowLimit -> exists n d,
   0 < d /\ d <> 1 /\ division_rendered n d = true /\
   forall rf, exists x, c_eval64 rf n d = Some x /\ ford binary64 x - ford binary64 (rne binary64 n d) = 2.
 Proof.
-  exists 1152921504606847105, 1152921504606847359. split; [reflexivity|]. split; [discriminate|]. split; [vm_compute; reflexivity|].
-  intro rf. eexists. split; [vm_compute; reflexivity|]. vm_compute. reflexivity.
+  intro Hrule.
+  first [ discriminate Hrule
+        | exists 1152921504606847105, 1152921504606847359; split; [reflexivity|]; split; [discriminate|]; split; [vm_compute; reflexivity|];
+          intro rf; eexists; split; [vm_compute; reflexivity|]; vm_compute; reflexivity ].
 Qed.
 
 (* the strongest true statements: the exported double IS the correctly rounded rational (0 ulp) when ... *)
@@ -41,9 +43,27 @@ Theorem float64_oracle_certified_correct : forall rf n d, d <> 1 -> division_ren
   exists x, c_eval64 rf n d = Some x /\ fbits binary64 x = fbits binary64 (rne binary64 n d).
 Proof.
   intros rf n d Hd1 Hdiv Hc. split.
-  - unfold const_float_expr, filter_literal_float_expr, float_division_expr. cbn [fst snd]. cbv zeta.
-    destruct (Z.eqb_spec d 1); [contradiction|]. unfold division_rendered, division_operand_limit in Hdiv. rewrite Hdiv. reflexivity.
+  - apply float_expr_out_of_range_is_oracle; assumption.
   - unfold c_eval64, oracle_certified in *. destruct (Z.eqb_spec d 1); [contradiction|]. rewrite Hdiv.
     destruct (parse_fdec (rf (n, d))) as [[a b]|]; [|discriminate].
     apply andb_true_iff in Hc. destruct Hc as [_ Hc]. apply Z.eqb_eq in Hc. eexists. split; [reflexivity|exact Hc].
+Qed.
+
+(* Under the rule "division only when both operands are exactly representable doubles" (repaired code) the claim HOLDS for every
+   rational constant, with zero ulps: the exported double is the correctly rounded rational -- integral form, exact division, or the
+   oracle's decimal constant whose certificate is checked in Coq whenever it is used *)
+Theorem float64_one_ulp : float_rule = DivIfExactOperands -> forall rf n d, 0 < d ->
+  (d <> 1 -> division_rendered n d = false -> oracle_certified rf n d = true) ->
+  exists x, c_eval64 rf n d = Some x /\ fbits binary64 x = fbits binary64 (rne binary64 n d) /\
+            ford binary64 x - ford binary64 (rne binary64 n d) = 0.
+Proof.
+  intros Hrule rf n d Hd Hcert.
+  assert (Hres : exists x, c_eval64 rf n d = Some x /\ fbits binary64 x = fbits binary64 (rne binary64 n d)).
+  { destruct (Z.eq_dec d 1) as [->|Hd1].
+    - eexists. split; [apply float64_integral_correct|reflexivity].
+    - destruct (division_rendered n d) eqn:Hdiv.
+      + pose proof Hdiv as Hex. unfold division_rendered in Hex. rewrite Hrule in Hex. apply andb_true_iff in Hex. destruct Hex as [Hn Hx].
+        eexists. split; [apply float64_exact_operands_correct; assumption|reflexivity].
+      + destruct (float64_oracle_certified_correct rf n d Hd1 Hdiv (Hcert Hd1 eq_refl)) as [_ H]. exact H. }
+  destruct Hres as [x [Hx Hb]]. exists x. split; [exact Hx|]. split; [exact Hb|]. unfold ford. rewrite Hb. lia.
 Qed.
